@@ -28,10 +28,12 @@ def select(rw: List[RwCase], q: bool) -> List[Any]:
     # the -O generator looks at declared types itself (aliases, enums, nesting): every single alias / nest / hoist /
     # import rewrite of a traditional base, plus a slice of the rest
     alias = [rc for rc in trad if len(rc.rewrites) == 1 and rc.rewrites[0] in ("alias_intro", "alias_inline")]
-    typed = [rc for rc in trad if len(rc.rewrites) == 1 and rc.rewrites[0] in ("nest", "hoist", "to_import", "rename_shadow")]
+    typed = [rc for rc in trad if len(rc.rewrites) == 1 and rc.rewrites[0] in ("nest", "hoist", "to_import", "rename_shadow", "reorder_fields", "renumber")]
     rest = [rc for rc in trad if rc not in typed and rc not in alias][::(25 if q else 6)]
     for rc in alias:
         jobs += [(rc, "O-big"), (rc, "O-little")]
+    # the runtime library dispatches on the kind an alias points to: every alias rewrite also in standard mode
+    jobs += [(rc, "std") for rc in rw if len(rc.rewrites) == 1 and rc.rewrites[0] in ("alias_intro", "alias_inline") and (rc, "std") not in jobs]
     for i, rc in enumerate(typed + rest):
         if q:
             jobs.append((rc, "O-big" if i % 2 == 0 else "O-little"))
